@@ -31,25 +31,25 @@ func genPairQ(t *rapid.T) pairQ {
 
 func neg(p s2.Point) s2.Point { return s2.Point{Vector: p.Mul(-1)} }
 
-func queryPair(a0, a1, b0, b1 s2.Point, furthest bool) (float64, bool) {
+func queryPair(a0, a1, b0, b1 s2.Point, furthest bool, decoy *s2.Point) (float64, bool) {
 	idx := s2.NewShapeIndex()
+	if decoy != nil {
+		// a point shape examined before the edge: the edge pair then has to improve
+		// on a finite running extreme instead of on the initial infinite one
+		pv := s2.PointVector{*decoy}
+		idx.Add(&pv)
+	}
 	pl := s2.Polyline{a0, a1}
 	idx.Add(&pl)
 	e := s2.Edge{V0: b0, V1: b1}
 	if furthest {
 		q := s2.NewFurthestEdgeQuery(idx, s2.NewFurthestEdgeQueryOptions().UseBruteForce(true))
-		rs := q.FindEdges(s2.NewMaxDistanceToEdgeTarget(e))
-		if len(rs) != 1 {
-			return 0, false
-		}
-		return float64(rs[0].Distance()), true
+		d := q.Distance(s2.NewMaxDistanceToEdgeTarget(e))
+		return float64(d), true
 	}
 	q := s2.NewClosestEdgeQuery(idx, s2.NewClosestEdgeQueryOptions().UseBruteForce(true))
-	rs := q.FindEdges(s2.NewMinDistanceToEdgeTarget(e))
-	if len(rs) != 1 {
-		return 0, false
-	}
-	return float64(rs[0].Distance()), true
+	d := q.Distance(s2.NewMinDistanceToEdgeTarget(e))
+	return float64(d), true
 }
 
 func checkEdgePairDistance(c pairQ) ev.Outcome {
@@ -118,7 +118,7 @@ func checkEdgePairDistance(c pairQ) ev.Outcome {
 	o.Ratios = map[string]float64{}
 	for dir, ord := range [2][4]s2.Point{{a0, a1, b0, b1}, {b0, b1, a0, a1}} {
 		who := [2]string{"index=A,target=B", "index=B,target=A"}[dir]
-		got, ok := queryPair(ord[0], ord[1], ord[2], ord[3], false)
+		got, ok := queryPair(ord[0], ord[1], ord[2], ord[3], false, nil)
 		if !ok || math.IsNaN(got) || got < 0 || got > 4 {
 			o.Err = fmt.Sprintf("closest edge query (%s) returned no single valid result (%v, %v)", who, got, ok)
 			return o
@@ -133,7 +133,7 @@ func checkEdgePairDistance(c pairQ) ev.Outcome {
 			o.Err = fmt.Sprintf("minimum edge-pair distance (%s) chord² %.17g, true %.17g: |err| %.3g > bound %.3g (class %s)", who, got, hp.Float(tmin), e, tolMin, o.Class)
 			return o
 		}
-		got, ok = queryPair(ord[0], ord[1], ord[2], ord[3], true)
+		got, ok = queryPair(ord[0], ord[1], ord[2], ord[3], true, nil)
 		if !ok || math.IsNaN(got) || got < 0 || got > 4 {
 			o.Err = fmt.Sprintf("furthest edge query (%s) returned no single valid result (%v, %v)", who, got, ok)
 			return o
@@ -147,6 +147,58 @@ func checkEdgePairDistance(c pairQ) ev.Outcome {
 		if e > tolMax {
 			o.Err = fmt.Sprintf("maximum edge-pair distance (%s) chord² %.17g, true %.17g: |err| %.3g > bound %.3g (class %s)", who, got, hp.Float(tmax), e, tolMax, o.Class)
 			return o
+		}
+		// The same queries with a decoy point indexed before the edge: far away for the
+		// minimum (the antipode of the target's midpoint), on the target for the maximum
+		// (its midpoint). The edge pair then has to beat a finite running extreme, and the
+		// answer is the better of the two true values.
+		if g := pointEdge(ord[2], ord[2], ord[3]); boundApplies(g) && g.degenerate == 0 && g.edge > 1e-9 && g.edge < math.Pi-1e-3 {
+			mid := s2.Point{Vector: ord[2].Add(ord[3].Vector).Normalize()}
+			far := neg(mid)
+			gf := pointEdge(far, ord[2], ord[3])
+			wantMin, tolM := tmin, tolMin
+			if gf.d2.Cmp(wantMin) < 0 {
+				wantMin = gf.d2
+			}
+			tolM = math.Max(tolM, gf.bf*boundAt(gf.d2f, gf.d2f))
+			got, _ = queryPair(ord[0], ord[1], ord[2], ord[3], false, &far)
+			if e := absDiff(got, wantMin); e > tolM {
+				o.Err = fmt.Sprintf("minimum distance (%s) with a far decoy point indexed first: chord² %.17g, true %.17g: |err| %.3g > bound %.3g (class %s)", who, got, hp.Float(wantMin), e, tolM, o.Class)
+				return o
+			}
+			// and with a decoy just behind the true minimum (perpendicular to the target at
+			// its midpoint, 1e-6 resp. 1 % farther than the edge pair): only the vertex-edge
+			// case that realises the minimum beats the running value
+			if tf := hp.Float(tmin); tf > 1e-20 && tf < 1.9 && !cross {
+				nrm := ord[2].PointCross(ord[3])
+				for _, delta := range []float64{1e-6, 1e-2} {
+					th := 2 * math.Asin(math.Sqrt(tf)/2) * (1 + delta)
+					dp := gen.Fix(s2.Point{Vector: mid.Mul(math.Cos(th)).Add(nrm.Normalize().Mul(math.Sin(th))).Normalize()}, mid)
+					gd := pointEdge(dp, ord[2], ord[3])
+					w, tl := tmin, math.Max(tolMin, gd.bf*boundAt(gd.d2f, gd.d2f))
+					if gd.d2.Cmp(w) < 0 {
+						w = gd.d2
+					}
+					got, _ = queryPair(ord[0], ord[1], ord[2], ord[3], false, &dp)
+					if e := absDiff(got, w); e > tl {
+						o.Err = fmt.Sprintf("minimum distance (%s) with a decoy point %.3g farther than the edge pair indexed first: chord² %.17g, true %.17g: |err| %.3g > bound %.3g (class %s)", who, delta, got, hp.Float(w), e, tl, o.Class)
+						return o
+					}
+				}
+			}
+			gm := pointEdge(neg(mid), ord[2], ord[3]) // max distance from mid to the target edge = 4 − min chord² from −mid
+			mMax := hp.Sub(hp.F(4), gm.d2)
+			wantMax := tmax
+			if mMax.Cmp(wantMax) > 0 {
+				wantMax = mMax
+			}
+			dfm, _ := s2.UpdateMaxDistance(mid, ord[2], ord[3], s1.NegativeChordAngle)
+			tolX := math.Max(tolMax, gm.bf*(boundAt(4-float64(dfm), gm.d2f)+pointMaxErr(float64(dfm)))+2*eps+8*eps/math.Max(math.Cos(gm.edge/2), 1e-300))
+			got, _ = queryPair(ord[0], ord[1], ord[2], ord[3], true, &mid)
+			if e := absDiff(got, wantMax); e > tolX {
+				o.Err = fmt.Sprintf("maximum distance (%s) with a decoy point on the target indexed first: chord² %.17g, true %.17g: |err| %.3g > bound %.3g (class %s)", who, got, hp.Float(wantMax), e, tolX, o.Class)
+				return o
+			}
 		}
 	}
 	return o
